@@ -1842,7 +1842,18 @@ impl<'a> CompositionGraphEncoder<'a> {
                 explicit_imports.insert(name.as_str(), n);
                 aggregator = aggregator
                     .aggregate(name, self.0.types(), node.item_kind, &mut checker)
-                    .unwrap();
+                    .map_err(|e| EncodeError::ImportTypeMergeConflict {
+                        import: name.clone(),
+                        first: instantiations
+                            .iter()
+                            .find(|(implicit, _)| {
+                                wac_types::are_semver_compatible(implicit, name)
+                            })
+                            .map(|(_, index)| NodeId(*index))
+                            .unwrap_or(NodeId(n)),
+                        second: NodeId(n),
+                        source: e,
+                    })?;
             }
         }
         Ok(aggregator)
